@@ -343,8 +343,11 @@ func biasedAst(rng *rand.Rand, cfg gen.Config) *gen.Node {
 		head = &gen.Node{Kind: gen.KSeq, Subs: []*gen.Node{{Kind: gen.KAnchor, Anchor: []string{"A", "G", "^", "z", "Z"}[rng.Intn(5)]}, lit(w())}}
 	case 5: // fixed length + trailing anchor
 		return &gen.Node{Kind: gen.KSeq, Subs: []*gen.Node{lit(w()), {Kind: gen.KDot}, {Kind: gen.KAnchor, Anchor: []string{"z", "Z", "$"}[rng.Intn(3)]}}}
-	case 6: // single char at fixed distance
-		head = &gen.Node{Kind: gen.KSeq, Subs: []*gen.Node{{Kind: gen.KDot}, {Kind: gen.KDot}, {Kind: gen.KLit, Ch: 'a'}}}
+	case 6: // single char at fixed distance (U+FFFD: the rune every invalid byte of a string input decodes to)
+		head = &gen.Node{Kind: gen.KSeq, Subs: []*gen.Node{{Kind: gen.KDot}, {Kind: gen.KDot}, {Kind: gen.KLit, Ch: []rune{'a', 'a', 0xFFFD, 'é'}[rng.Intn(4)]}}}
+		if rng.Intn(2) == 0 {
+			head.Subs = head.Subs[1:]
+		}
 	case 7: // leading loop for bump-along
 		head = &gen.Node{Kind: gen.KSeq, Subs: []*gen.Node{{Kind: gen.KQuant, Lo: rng.Intn(2), Hi: -1, Lazy: rng.Intn(3) == 0, Subs: []*gen.Node{{Kind: gen.KShort, Short: "wsd"[rng.Intn(3)]}}}, lit(w())}}
 	case 8: // landmark chain: a leading set loop, then literals / bounded set runs / alternations of those, optional whitespace between
